@@ -453,11 +453,93 @@ func checkMarkup(r *ev.Report, content, mediaType string) {
 	}
 }
 
+// accessor histories: the accessors only read. For every value, every ordered pair of
+// accessors is called on one freshly decoded object; the second answer must be what that
+// accessor gives on an object of its own (an accessor that stores what it computed back
+// into the object shows here, whatever the order of the calls in the part above).
+var accessorTable = []struct {
+	Name string
+	Call func(o object.Object, key string) string
+}{
+	{"GetAny", func(o object.Object, k string) string {
+		x, err := o.GetAny(k)
+		return fmt.Sprintf("%#v|%s", x, classifyErr(err))
+	}},
+	{"GetString", func(o object.Object, k string) string {
+		x, err := o.GetString(k)
+		return fmt.Sprintf("%q|%s", x, classifyErr(err))
+	}},
+	{"GetNumber", func(o object.Object, k string) string {
+		x, err := o.GetNumber(k)
+		return fmt.Sprintf("%d|%s", x, classifyErr(err))
+	}},
+	{"GetObject", func(o object.Object, k string) string {
+		x, err := o.GetObject(k)
+		return fmt.Sprintf("%#v|%s", x, classifyErr(err))
+	}},
+	{"GetList", func(o object.Object, k string) string {
+		x, err := o.GetList(k)
+		return fmt.Sprintf("%#v|%s", x, classifyErr(err))
+	}},
+	{"GetTime", func(o object.Object, k string) string {
+		x, err := o.GetTime(k)
+		return fmt.Sprintf("%v|%s", x, classifyErr(err))
+	}},
+	{"GetURL", func(o object.Object, k string) string {
+		x, err := o.GetURL(k)
+		return fmt.Sprintf("%v|%s", x, classifyErr(err))
+	}},
+	{"GetMediaType", func(o object.Object, k string) string {
+		x, err := o.GetMediaType(k)
+		return fmt.Sprintf("%v|%s", x, classifyErr(err))
+	}},
+}
+
+func accessorHistories(r *ev.Report, text string) int64 {
+	doc := `{"k":` + text + `}`
+	fresh := func() object.Object {
+		var m map[string]any
+		if err := json.Unmarshal([]byte(doc), &m); err != nil {
+			return nil
+		}
+		return object.Object(m)
+	}
+	if fresh() == nil {
+		return 0
+	}
+	call := func(i int, o object.Object) (out string) {
+		defer func() {
+			if x := recover(); x != nil {
+				out = "PANIC " + fmt.Sprint(x)
+			}
+		}()
+		return accessorTable[i].Call(o, "k")
+	}
+	alone := make([]string, len(accessorTable))
+	for i := range accessorTable {
+		alone[i] = call(i, fresh())
+	}
+	var n int64
+	for a := range accessorTable {
+		for b := range accessorTable {
+			o := fresh()
+			call(a, o)
+			got := call(b, o)
+			n++
+			if got != alone[b] {
+				r.Violation("accessor-history:"+accessorTable[b].Name+":after:"+accessorTable[a].Name, map[string]any{"json": doc, "first": accessorTable[a].Name, "second": accessorTable[b].Name,
+					"got": got, "on_its_own": alone[b], "msg": "the second accessor answers differently after the first one was called on the same object"})
+			}
+		}
+	}
+	return n
+}
+
 func main() {
 	r := ev.New("C17", "exploration",
 		"complete product of a JSON value grammar (null, booleans, ~900 numerals around every power of two up to 2^70 in three notations, "+
 			"strings incl. all 65 control code points, timestamps, URLs, media types, arrays, objects) x key state {present, absent, duplicate key, null-shadowed} x 9 key names (plain, empty, with % verbs, newline, non-ASCII) x the 8 single-key accessors, "+
-			"plus GetMarkup on all (content, mediaType) pairs of a reduced value set; values are decoded by encoding/json exactly as jtp does; "+
+			"plus GetMarkup on all (content, mediaType) pairs of a reduced value set, plus every ordered pair of accessors on one object per value (the second must answer as on an object of its own); values are decoded by encoding/json exactly as jtp does; "+
 			"distinct_nontrivial counts distinct (value, accessor) pairs whose value is present and non-null")
 	if *ev.FlagReplay != "" {
 		var d struct {
@@ -491,6 +573,7 @@ func main() {
 				r.Eval(8)
 			}
 		}
+		r.Eval(accessorHistories(r, v))
 		if v != "null" {
 			for a := 0; a < 8; a++ {
 				r.Distinct(fmt.Sprint(v, a))
